@@ -253,7 +253,7 @@ class Oracle(simcheck.BaseOracle):
             self.add("refused-request-sent-something", "%s on order %d refused (%s) but a package was delivered" % (a[0], idx, result))
         new_order = not before["in_blotter"] and before["bet_id"] is None
         diff = sorted(k for k in before if before[k] != after[k])
-        if new_order and a[0] == "place":
+        if new_order:
             # permitted: marked as a violation, stays out of the blotter
             allowed = {"status", "log", "update_data"}
             if after["in_blotter"]:
@@ -261,7 +261,7 @@ class Oracle(simcheck.BaseOracle):
             if result.startswith("False:") and (after["status"] is None or after["status"].name != "VIOLATION"):
                 self.add("refused-order-not-marked", "new order %d refused by a control (%s) is %s" % (idx, result, after["status"]))
             if set(diff) - allowed:
-                self.add("refused-place-changed-state", "refused place of new order %d changed %s" % (idx, sorted(set(diff) - allowed)))
+                self.add("refused-place-changed-state", "refused %s of new order %d changed %s" % (a[0], idx, sorted(set(diff) - allowed)))
         elif diff:
             if "client" in diff:
                 self.add("refused-place-overwrites-client", "place of order %d, already in the blotter, was refused (%s) but the order now belongs to "
